@@ -312,6 +312,16 @@ func (p *partition) Pause() error {
 	return p.close()
 }
 
+// clearPaused resets the paused flag of a partition that has been resumed,
+// including the protobuf value used for snapshotting and metadata.
+func (p *partition) clearPaused() {
+	p.mu.Lock()
+	defer p.mu.Unlock()
+
+	p.paused = false
+	p.Paused = false
+}
+
 // IsPaused indicates if the partition is currently paused.
 func (p *partition) IsPaused() bool {
 	p.mu.RLock()
